@@ -14,7 +14,7 @@ import (
 	rt "github.com/Azbesciak/RealDecisionMaker/lib/zz_verifrt"
 )
 
-//verif:bounds C16 HC16_reversal: PreferenceReversal.Apply on A<=3 (quick) / A<=4 (thorough) known alternatives (all considered - the aliasing-prone case - or the last one not considered), K<=3 criteria (gain/cost, the first optionally with a declared symbolic valuesRange), symbolic values, weights (ties allowed) and ratio in [0,1], min in {0,1}, max in {1,K,absent}, orderings weakest / strongest (thorough: also random with symbolic draws); the bias listener is the majority heuristic's (importance = weight); JSON-shaped props through the mapstructure model; the bias is then applied a second time to its own output
+//verif:bounds C16 HC16_reversal: PreferenceReversal.Apply on A<=3 (quick) / A<=4 (thorough) known alternatives (all considered - the aliasing-prone case - or the last one not considered), K<=2 (quick) / K<=3 (thorough) criteria (gain/cost, the first optionally with a declared symbolic valuesRange), symbolic values, weights (ties allowed) and ratio in [0,1], min in {0,1}, max in {1,K,absent}, orderings weakest / strongest (thorough: also random with symbolic draws); the bias listener is the majority heuristic's (importance = weight); JSON-shaped props through the mapstructure model; the ORIGINAL parameters handed to Apply optionally carry different (independent symbolic) values, as after an earlier bias; the bias is then applied a second time to its own output
 //verif:outside C16: which criteria an ordering puts first is C15's subject (the harness obtains the expected ordering from the same resolver); 'after other biases' is covered by the C07/C09 pipeline checks
 //verif:assume C16: REAL arithmetic: max + min - (max + min - v) = v exactly
 
@@ -36,10 +36,10 @@ func c16value(d *model.DecisionMakingParams, alt, crit string) (float64, bool) {
 	return 0, false
 }
 
-//verif:harness HC16_reversal mode=REAL reach=declared-range,observed-range,all-considered,some-reversed,none-reversed,all-reversed,cost
+//verif:harness HC16_reversal mode=REAL reach=declared-range,observed-range,all-considered,some-reversed,none-reversed,all-reversed,cost,original-differs
 func HC16_reversal() {
 	A := rt.IntRange("A", 1, rt.Pick(3, 4))
-	K := rt.IntRange("K", 1, 3)
+	K := rt.IntRange("K", 1, rt.Pick(2, 3))
 	crit := vh.Criteria(K, "")
 	if crit[0].Type == model.Cost {
 		rt.Reach("cost")
@@ -84,8 +84,14 @@ func HC16_reversal() {
 	}
 	var bp model.BiasProps = props
 	bias := NewPreferenceReversal(c16orderings)
+	// the ORIGINAL parameters differ from the current ones (as after an earlier bias): nothing may be taken from them
+	original := current
+	if rt.Bool("original-differs") {
+		original = vh.Params(vh.Alternatives("orig.", vh.AltIds[:A], crit), chose, crit, methodParams)
+		rt.Reach("original-differs")
+	}
 	snapBefore := rt.Snapshot(current)
-	res := bias.Apply(current, current, &bp, &listener)
+	res := bias.Apply(original, current, &bp, &listener)
 	rt.Assert("C16.received-state-untouched", rt.Same(snapBefore, current))
 	rep := res.Props.(PreferenceReversalResult)
 
@@ -157,7 +163,7 @@ func HC16_reversal() {
 	}
 	// reversing the same criteria a second time restores the data
 	if ordering != "random" {
-		res2 := bias.Apply(current, res.DMP, &bp, &listener)
+		res2 := bias.Apply(original, res.DMP, &bp, &listener)
 		rep2 := res2.Props.(PreferenceReversalResult)
 		rt.Assert("C16.second-application-selects-the-same-criteria", len(rep2.ReversedPreferenceCriteria) == k)
 		for _, c := range crit {
